@@ -394,3 +394,22 @@ package tss
 //@   requires wire != nil
 //@   ensures result1 != nil ==> isnil(result0)
 //@   ensures result1 == nil ==> (istype(result0, "*tss.MessageImpl") && cast(result0, "*tss.MessageImpl").MessageRouting.From == from && cast(result0, "*tss.MessageImpl").MessageRouting.IsBroadcast == wire.IsBroadcast && cast(result0, "*tss.MessageImpl").wire == wire && !isnil(cast(result0, "*tss.MessageImpl").content))
+
+// ----- params.go: committee membership (resharing) -----
+//@ define keyOf(id) = beint(bytes(id.MessageWrapper_PartyID.Key))
+//@ define memberOf(ids, id) = (exists k in 0..len(ids) :: keyOf(ids[k]) == keyOf(id))
+
+//@ func (*ReSharingParameters).IsOldCommittee
+//@   props C06 C04 C08
+//@   requires rgParams != nil && wfParams(rgParams.Parameters) && wfIDs(rgParams.Parameters.parties.partyIDs)
+//@   ensures [C04.old-member-iff-key-in-old-committee] result <==> memberOf(rgParams.Parameters.parties.partyIDs, rgParams.Parameters.partyID)
+//@   loop 0 invariant forall k in 0..$iter :: keyOf(rgParams.Parameters.parties.partyIDs[k]) != keyOf(rgParams.Parameters.partyID)
+
+//@ func (*ReSharingParameters).IsNewCommittee
+//@   props C06 C04 C08
+//@   requires rgParams != nil && wfParams(rgParams.Parameters) && rgParams.newParties != nil && wfIDs(rgParams.newParties.partyIDs)
+//@   ensures [C04.new-member-iff-key-in-new-committee] result <==> memberOf(rgParams.newParties.partyIDs, rgParams.Parameters.partyID)
+//@   loop 0 invariant forall k in 0..$iter :: keyOf(rgParams.newParties.partyIDs[k]) != keyOf(rgParams.Parameters.partyID)
+//@ define rsWF(rp) = rp != nil && wfParams(rp.Parameters) && wfIDs(rp.Parameters.parties.partyIDs) && rp.newParties != nil && wfIDs(rp.newParties.partyIDs)
+//@ define rsNew(rp) = memberOf(rp.newParties.partyIDs, rp.Parameters.partyID)
+//@ define rsOld(rp) = memberOf(rp.Parameters.parties.partyIDs, rp.Parameters.partyID)
